@@ -158,8 +158,10 @@ def _value_xml(v):
     if isinstance(v, CIMClass):
         return _cim_xml.VALUE(v.tocimxml().toxml())
     if isinstance(v, list):
-        if v and isinstance(v[0], (CIMInstanceName, CIMClassName)):
-            return _cim_xml.VALUE_REFARRAY([_value_xml(x) for x in v])
+        if any(isinstance(x, (CIMInstanceName, CIMClassName)) for x in v):
+            return _cim_xml.VALUE_REFARRAY(
+                [_cim_xml.VALUE_NULL() if x is None else _value_xml(x)
+                 for x in v])
         return _cim_xml.VALUE_ARRAY(
             [_cim_xml.VALUE_NULL() if x is None else _value_xml(x)
              for x in v])
